@@ -14,7 +14,7 @@
    composition for item lists under the named hypotheses out_tokens_preserved (C05),
    value_grammar_faithful (prodparser, unmodelled) and the per-lexeme stability of non-string tokens
    (numbers: C17 number_roundtrip).                                                               *)
-From CssV Require Import Base Regex Tokenizer Quote Gen.Quote QuoteFacts QuoteStrFacts Roundtrip RoundtripFacts.
+From CssV Require Import Base Regex Tokenizer Quote Gen.Quote QuoteFacts QuoteStrFacts Upto UptoFacts Skeleton SkeletonFacts Roundtrip RoundtripFacts.
 
 (* strings re-parse to an equal object: for every REPRESENTABLE string value (QuoteStrFacts.rep_okc: every value
    except an escape-introducing backslash directly before a double quote - helper.string keeps the pinned
@@ -102,6 +102,42 @@ Theorem fixpoint_of_roundtrip : forall (M T : Type) (ser : M -> T) (parse : T ->
   parse (ser m) = Some m -> option_map ser (parse (ser m)) = Some (ser m).
 Proof. exact fixpoint_of_roundtrip_lemma. Qed.
 Print Assumptions fixpoint_of_roundtrip.
+
+(* sheet layout: the rule list the serializer writes - lineSeparator.join(rule texts), at token level the token runs of
+   the rules joined by the tokens of the separator: NONE for lineSeparator '', one S token for a blank-only or newline
+   separator (plus the indentation inside @media), surrounded by skipped tokens (indentation, EOF) - is split again by
+   the parser's top-level loop (C04's Skeleton.skeleton) at exactly the same places, into the same handler kinds, in
+   order, comments included.  IsStatement = SkeletonFacts.JunkStmt: the run is one complete statement for its handler.
+   Token level: that tokenizing the joined TEXT gives the joined token runs is checked by the harness on the
+   implementation (oracle 'layout'), not proved (it needs a prefix-stability theorem for the regex matcher).     *)
+Theorem sheet_layout_roundtrip : forall sep before after ps,
+  skips cls_sheet sep -> skips cls_sheet before -> skips cls_sheet after -> Forall (wf_piece cls_sheet) ps ->
+  skeleton (before ++ join_toks sep (map ptoks ps) ++ after) = map pitem ps.
+Proof. intros. apply layout_roundtrip_lemma; assumption. Qed.
+Print Assumptions sheet_layout_roundtrip.
+
+(* the same for the rule list inside an @media block (cssmediarule's inner loop) *)
+Theorem media_layout_roundtrip : forall sep before after ps,
+  skips cls_media sep -> skips cls_media before -> skips cls_media after -> Forall (wf_piece cls_media) ps ->
+  media_inner (before ++ join_toks sep (map ptoks ps) ++ after) = map pitem ps.
+Proof. intros. apply layout_roundtrip_lemma; assumption. Qed.
+Print Assumptions media_layout_roundtrip.
+
+(* non-vacuity: a rule, a comment and the statement  f() {}  joined without any separator (lineSeparator = '') and with
+   a white space token, EOF behind *)
+Example sheet_layout_roundtrip_example :
+  let ps := [PStmt KRuleset rule_a; PComment (T "COMMENT" "/*c*/"); PStmt KRuleset junk_fn] in
+  Forall (wf_piece cls_sheet) ps /\
+  skeleton (join_toks [] (map ptoks ps) ++ [T "EOF" ""]) = map pitem ps /\
+  skeleton ([sp] ++ join_toks [sp; sp] (map ptoks ps) ++ [sp; T "EOF" ""]) = map pitem ps.
+Proof.
+  cbv zeta.
+  assert (Hw : Forall (wf_piece cls_sheet) [PStmt KRuleset rule_a; PComment (T "COMMENT" "/*c*/"); PStmt KRuleset junk_fn]).
+  { repeat constructor; [exact rule_a_stmt|exact junk_fn_stmt]. }
+  split; [exact Hw|]. split.
+  - apply (sheet_layout_roundtrip [] [] [T "EOF" ""]); [constructor|constructor|repeat constructor|exact Hw].
+  - apply (sheet_layout_roundtrip [sp; sp] [sp] [sp; T "EOF" ""]); [repeat constructor|repeat constructor|repeat constructor|exact Hw].
+Qed.
 
 (* F restricted to item lists (values), with its hypotheses visible as premises:
      sepok                   the texts `Out` puts after a token                      (C05 model)
